@@ -37,7 +37,7 @@
  *        with start_seq_num = the value last given to the callback (else the configured start)
  *        -> per op  <hexpiv|->/<hexsaved|->
  *
- *   rpe <Wcfg> <b12> <con> <nreq> <replay> [<ssn_freq> <restart_every>]
+ *   rpe <Wcfg> <b12> <con> <nreq> <replay> [<ssn_freq> <restart_every> [<hexjump>]]
  *        whole exchange through the public client API: <nreq> times coap_send() of GET /r on an
  *        OSCORE client session; every datagram either side hands to coap_socket_send is carried
  *        to the other side's coap_handle_dgram until nothing is in flight (Appendix B.1.2: the
@@ -46,7 +46,8 @@
  *           (e = sent by the client while it was processing a datagram from the server;
  *           restart_every = k > 0: before request k, 2k, .. the client context is destroyed and
  *           a new one created with start_seq_num = the value last given to save_seq_num_func;
- *           replay & 1: after every request all client datagrams recorded so far are delivered
+ *           hexjump: before the third request the client's sender sequence number is raised by
+ *           that much; replay & 1: after every request all client datagrams recorded so far are delivered
  *           again, tag r; replay & 2: before that, each with its last byte changed, tag f), then
  *           " | handler=<n> responses=<n> ok=<number of 2.05> spivdup=<server Partial IVs seen twice on the wire> codes=<list, may be cut>"
  *
@@ -566,7 +567,7 @@ static void cmd_rpe(void) {
   client_t c = {0};
   int b12, con, nreq, replay, restart_every = 0;
   char extra[64];
-  uint64_t stored = 0;
+  uint64_t stored = 0, jump = 0;
   if (vntok < 6) { printf("BAD-CASE\n"); return; }
   b12 = atoi(vtok[2]);
   con = atoi(vtok[3]);
@@ -574,6 +575,7 @@ static void cmd_rpe(void) {
   replay = atoi(vtok[5]);
   snprintf(extra, sizeof(extra), "ssn_freq,integer,%s\n", vntok > 6 ? vtok[6] : "1");
   if (vntok > 7) restart_every = atoi(vtok[7]);
+  if (vntok > 8) jump = strtoull(vtok[8], NULL, 16);
   resp_count = resp_205 = 0;
   resp_codes[0] = 0;
   spiv_list[0] = 0;
@@ -598,6 +600,8 @@ static void cmd_rpe(void) {
       if (!client_up(&c, SECRET_A, extra, save_cb, stored)) { printf(" SETUP-FAILED\n"); goto done; }
       coap_register_response_handler(c.ctx, hnd_resp);
     }
+    /* the sender resumed from a much later persisted number */
+    if (jump && q == 2) client_sender(&c)->seq += jump;
     pdu = coap_new_pdu(con ? COAP_MESSAGE_CON : COAP_MESSAGE_NON, COAP_REQUEST_CODE_GET, c.sess);
     if (!pdu) break;
     coap_add_token(pdu, 2, t);
